@@ -1786,7 +1786,15 @@ int ov_pcm_seek(OggVorbis_File *vf,ogg_int64_t pos){
       if(ret<0 && ret!=OV_HOLE)break;
 
       /* suck in a new page */
-      if(_get_next_page(vf,&og,-1)<0)break;
+      ret=_get_next_page(vf,&og,-1);
+      if(ret==OV_EREAD){
+        /* a failed read is not the end of the data; decoding on from
+           here would leave us somewhere other than pos */
+        vf->pcm_offset=-1;
+        _decode_clear(vf);
+        return ret;
+      }
+      if(ret<0)break;
       if(ogg_page_bos(&og))_decode_clear(vf);
 
       if(vf->ready_state<STREAMSET){
